@@ -1,6 +1,7 @@
 # c02.py — C02: discrete-time online update() = offline robustness at every step,
 # also when the same sub-formula text occurs more than once.
 import json
+import math
 from harness import fml
 from harness.common import parse_fields
 from harness.runner import Check, online_case, offline_case, time_column, need_vars, expect_vals
@@ -75,6 +76,14 @@ class C02(Check):
                 if sp:
                     c['spell'] = sp
             cases.append(c)
+        # signals whose names read like values (inf, nan) next to infinite literals: node names must not be confused
+        INF = ('const', math.inf)
+        X0 = ('var', 0)
+        for f in [('and', ('pred', 'geq', X0, ('const', 0)), ('not', ('pred', 'geq', INF, ('const', 0)))), ('or', ('pred', 'geq', X0, ('const', 3)), ('pred', 'geq', INF, ('const', 3))),
+                  ('once', ('and', ('pred', 'leq', X0, ('const', 3)), ('pred', 'leq', INF, ('const', 3)))), ('since', ('pred', 'geq', X0, INF), ('pred', 'geq', ('var', 1), X0))]:
+            for nm in ('inf', 'nan'):
+                n = rng.choice([3, 5])
+                cases.append({'f': f, 'n': n, 'nv': 2, 'cols': fml.gen_trace(rng, 2, n), 'times': list(range(n)), 'rename': {'xa': nm}})
         # the IA-STL online classes (predicates over 'insensitive' variables report +-inf / 0): same statement, semantics of IA.v
         Pg = lambda c, k: ('pred', c, ('var', 0), ('const', k))
         ia_base = [Pg('gt', 1), Pg('lt', 1), Pg('geq', 1), Pg('leq', 1), Pg('eq', 1), Pg('neq', 1), ('implies', Pg('gt', 1), ('pred', 'geq', ('var', 1), ('const', 0))),
@@ -130,8 +139,15 @@ class C02(Check):
         if 'subs' in c:
             from harness.modular import modular_spec
             kw.update(modular_spec(c))
-        return [online_case(c['f'], c['cols'], c['times'], c['nv'], **kw),
-                offline_case(c['f'], c['cols'], c['times'], c['nv'], **kw)]
+        out = [online_case(c['f'], c['cols'], c['times'], c['nv'], **kw),
+               offline_case(c['f'], c['cols'], c['times'], c['nv'], **kw)]
+        if c.get('rename'):
+            import re
+            txt = json.dumps(out)
+            for a, b in c['rename'].items():
+                txt = re.sub(r'\b%s\b' % re.escape(a), b, txt)
+            out = json.loads(txt)
+        return out
 
     def nontrivial(self, c):
         return fml.size(c['f']) >= 3 and bool(fml.ops(c['f']) & {'prev', 'sprev', 'once', 'hist', 'since', 'oncet', 'histt', 'sincet', 'rise', 'fall'})
